@@ -128,6 +128,8 @@ void perturb_a64_operand(Operand_& op, Rng& r, const Labels& ls, const CodeHolde
     if (reg.is_vec()) {
       a64::Vec& v = op.as<a64::Vec>();
       if (r.chance(1, 3)) v.set_element_type(a64::VecElementType(r.below(8)));
+      /* the 64-bit and the 128-bit view of an arrangement operand (.8b/.16b ... .1d/.2d) */
+      if (!v.has_element_index() && (v.reg_type() == RegType::kVec64 || v.reg_type() == RegType::kVec128) && r.chance(1, 6)) { Reg flipped = Reg::from_type_and_id(v.reg_type() == RegType::kVec64 ? RegType::kVec128 : RegType::kVec64, v.id()); uint32_t et = uint32_t(v.element_type()); op = flipped; op.as<a64::Vec>().set_element_type(a64::VecElementType(et)); }
       // an element operand stays an element operand and an arrangement stays an arrangement (the operand kind is kept):
       // only the index of an operand that has one is re-drawn
       if (v.has_element_index() && r.chance(1, 2)) v.set_element_index(uint32_t(r.chance(3, 4) ? r.below(17) : r.below(64)));
@@ -139,6 +141,7 @@ void perturb_a64_operand(Operand_& op, Rng& r, const Labels& ls, const CodeHolde
     if (m.has_base_label()) { Label l = select_label(ls, r.chance(1, 2) ? int64_t(r.below(8)) : -int64_t(1 + r.below(8)), code); m.set_base_id(l.id()); }
     else if (m.has_base_reg() && r.chance(1, 2)) m.set_base_id(perturbed_id(r));
     if (m.has_index() && r.chance(1, 2)) m.set_index_id(perturbed_id(r));
+    if (m.has_index() && r.chance(1, 5)) m.set_index_type(m.index_type() == RegType::kGp32 ? RegType::kGp64 : RegType::kGp32);   /* W <-> X index */
     if (r.chance(1, 2)) { int64_t o = perturbed_imm(r); m.set_offset(r.chance(1, 2) ? int64_t(int32_t(o)) : o); }
     if (r.chance(1, 4)) m.set_shift(uint32_t(r.below(r.chance(1, 2) ? 5 : 64)));
     if (r.chance(1, 6)) m.set_shift_op(a64::ShiftOp(r.below(16)));
@@ -215,6 +218,26 @@ bool a64_known_invalid(uint32_t inst_id, const Operand_* o, const Operand_* form
     case I::kIdCcmp: case I::kIdCcmn:
       if (n == 4 && is_imm(2) && (imm(2) < 0 || imm(2) > 15)) { *why = "nzcv beyond 4 bits"; return true; }
       if (n == 4 && is_imm(1) && (imm(1) < 0 || imm(1) > 31)) { *why = "5-bit immediate out of range"; return true; }
+      if (n == 4 && is_imm(3) && (imm(3) < 0 || imm(3) > 15)) { *why = "condition code beyond 4 bits"; return true; }
+      break;
+    case I::kIdLd1_v: case I::kIdLd2_v: case I::kIdLd3_v: case I::kIdLd4_v: case I::kIdSt1_v: case I::kIdSt2_v: case I::kIdSt3_v: case I::kIdSt4_v:
+    case I::kIdLd1r_v: case I::kIdLd2r_v: case I::kIdLd3r_v: case I::kIdLd4r_v: {
+      // structure loads / stores: the post-index register is an X register; the 1D arrangement only exists for ld1/st1
+      const Operand_& last = o[n - 1];
+      if (n >= 2 && last.is_mem() && last.as<a64::Mem>().has_index() && last.as<a64::Mem>().index_type() == RegType::kGp32) { *why = "post-index register of a structure load/store must be an X register"; return true; }
+      bool multi = id == I::kIdLd2_v || id == I::kIdLd3_v || id == I::kIdLd4_v || id == I::kIdSt2_v || id == I::kIdSt3_v || id == I::kIdSt4_v;
+      if (multi && n >= 2 && o[0].is_reg() && o[0].as<Reg>().reg_type() == RegType::kVec64 && !o[0].as<a64::Vec>().has_element_index() && o[0].as<a64::Vec>().element_type() == a64::VecElementType::kD) { *why = "the .1d arrangement is reserved for ld2/ld3/ld4/st2/st3/st4"; return true; }
+      break;
+    }
+    case I::kIdCsel: case I::kIdCsinc: case I::kIdCsinv: case I::kIdCsneg:
+      if (n == 4 && is_imm(3) && (imm(3) < 0 || imm(3) > 15)) { *why = "condition code beyond 4 bits"; return true; }
+      break;
+    case I::kIdCinc: case I::kIdCinv: case I::kIdCneg:
+      // aliases of csinc/csinv/csneg with the inverted condition: 14 conditions (asmjit numbers them 2..15; AL and NV have no inverse)
+      if (n == 3 && is_imm(2) && (imm(2) < 2 || imm(2) > 15)) { *why = "condition code outside eq..le"; return true; }
+      break;
+    case I::kIdCset: case I::kIdCsetm:
+      if (n == 2 && is_imm(1) && (imm(1) < 2 || imm(1) > 15)) { *why = "condition code outside eq..le"; return true; }
       break;
     case I::kIdLdp: case I::kIdStp: case I::kIdLdnp: case I::kIdStnp: case I::kIdLdpsw:
       // register pair: signed 7-bit offset scaled by the access size; the non-temporal forms have no write-back
